@@ -109,27 +109,28 @@ func (f *File) Close() error {
 	defer f.rd.Close()
 
 	if f.wr != nil {
-		ret := f.wr.Close()
+		// The header is only finalised for a body that was written in full:
+		// after an error the placeholder stays and the entry never validates.
+		if err := f.wr.Close(); err != nil {
+			return err
+		}
 
-		if _, err := f.f.Seek(int64(f.h.Size())*3, io.SeekStart); ret == nil {
-			ret = err
+		if _, err := f.f.Seek(int64(f.h.Size())*3, io.SeekStart); err != nil {
+			return err
 		}
 
 		f.h.Reset()
-		if _, err := io.Copy(f.h, f.f); ret == nil {
-			ret = err
+		if _, err := io.Copy(f.h, f.f); err != nil {
+			return err
 		}
 
 		f.hd.BodySum = f.h.Sum(nil)
-		if _, err := f.f.Seek(0, io.SeekStart); ret == nil {
-			ret = err
+		if _, err := f.f.Seek(0, io.SeekStart); err != nil {
+			return err
 		}
 
-		if _, err := f.hd.WriteTo(f.f); ret == nil {
-			ret = err
-		}
-
-		return ret
+		_, err := f.hd.WriteTo(f.f)
+		return err
 	}
 
 	return nil
